@@ -44,7 +44,7 @@ impl Scenario for SubsScenario {
 		300
 	}
 	fn setup(&self) -> SrvState {
-		smem::setup(&SrvCfg { conns: self.conns.iter().cloned().map(Conn::Ws).collect(), scripts: self.scripts.clone(), stop: self.stop, buffer: self.buffer, max_subs: self.max_subs, max_resp: self.max_resp, low_ws: self.name.contains("low-level"), wide_ids: if self.max_resp > 0 { self.max_resp as usize + 28 } else if self.name.contains("string-ids") { 3 } else { 0 }, ..Default::default() })
+		smem::setup(&SrvCfg { conns: self.conns.iter().cloned().map(Conn::Ws).collect(), scripts: self.scripts.clone(), stop: self.stop, buffer: self.buffer, max_subs: self.max_subs, max_resp: self.max_resp, low_ws: self.name.contains("low-level"), max_req: if self.name.contains("oversized-frame") { 256 } else { 0 }, wide_ids: if self.max_resp > 0 { self.max_resp as usize + 28 } else if self.name.contains("string-ids") { 3 } else { 0 }, ..Default::default() })
 	}
 	fn judge(&self, _st: SrvState, trace: &[String], panics: &[String], status: Status) -> Verdict {
 		let mut v = monitor(trace, self.conns.len());
@@ -213,6 +213,8 @@ pub fn scenarios(thorough: bool) -> Vec<SubsScenario> {
 	use HStep::*;
 	use PeerAct::*;
 	let mut v = vec![
+		// a frame above max_request_body_size from the peer is answered -32007 and changes nothing for the subscription
+		SubsScenario { name: String::from("oversized-frame-vs-sends"), conns: vec![vec![Subscribe(0), Oversized(300), Unsub(0)]], scripts: vec![vec![Accept, Send, IsClosed, Send, IsClosed, ReturnErr]], stop: false, mask: mask_harness_only, buffer: 16, max_subs: 16, max_resp: 0 },
 		SubsScenario { name: String::from("unsubscribe-vs-sends"), conns: vec![vec![Subscribe(0), Unsub(0)]], scripts: vec![vec![Accept, Send, IsClosed, Send, IsClosed, Send, ReturnErr]], stop: false, mask: mask_sub_points, buffer: 16, max_subs: 16, max_resp: 0 },
 		SubsScenario { name: String::from("close-frame-vs-sends"), conns: vec![vec![Subscribe(0), CloseFrame]], scripts: vec![vec![Accept, Send, IsClosed, Send, IsClosed]], stop: false, mask: mask_harness_only, buffer: 16, max_subs: 16, max_resp: 0 },
 		SubsScenario { name: String::from("drop-vs-sends"), conns: vec![vec![Subscribe(0), Drop]], scripts: vec![vec![Accept, Send, IsClosed, Send, ReturnMsg]], stop: false, mask: mask_harness_only, buffer: 16, max_subs: 16, max_resp: 0 },
@@ -323,7 +325,7 @@ pub fn check(rep: &Reporter) {
 	rep.assume("scenario oversized-accept-answer: max_response_body_size 100 with 128-byte subscription ids, so the accept() answer is replaced by -32008 and the subscription counts as never accepted; accept()'s documented panic in that configuration is not reported");
 	let thorough = rep.tier.thorough();
 	rep.set_rule(
-		"WebSocket connections (1–2) served in memory by the real TowerService; scenarios combine peer scripts over {subscribe, unsubscribe own/foreign id, call, close frame, abrupt drop}, puppet handler scripts over {accept, reject, drop pending, send, try_send, is_closed, closed().await, return none/error/close message}, server stop, message buffer 16/1; every peer action, every handler step, stop() and (per scenario) the library's cfg points in accept/send/close-notification or all server tasks are scheduling points; complete schedule tree when ≤ cap executions, else all schedules with ≤ K deviations. Monitor over the complete frame list of each connection and the handler log in trace order.",
+		"WebSocket connections (1–2) served in memory by the real TowerService; scenarios combine peer scripts over {subscribe, unsubscribe own/foreign id, call, a frame above max_request_body_size, close frame, abrupt drop}, puppet handler scripts over {accept, reject, drop pending, send, try_send, is_closed, closed().await, return none/error/close message}, server stop, message buffer 16/1; every peer action, every handler step, stop() and (per scenario) the library's cfg points in accept/send/close-notification or all server tasks are scheduling points; complete schedule tree when ≤ cap executions, else all schedules with ≤ K deviations. Monitor over the complete frame list of each connection and the handler log in trace order.",
 	);
 	rep.assume("closing instants are taken from what the server exposes: unsubscribe answered true as seen by the peer, on_session_closed() resolved, stopped() resolved");
 	for s in scenarios(thorough) {
